@@ -1,26 +1,27 @@
 #!/usr/bin/env python3
-"""Re-run every check against every confirmed seeded change (applied to /repo, reverted straight afterwards) and record in
+"""Re-run every check against every confirmed seeded change (applied to a scratch worktree of /repo HEAD that the checks read through SVT_REPO; reverted straight afterwards) and record in
 each meta.json which checks report a violation *now*.  Evidence of these runs goes to a scratch directory."""
 import json, os, re, subprocess, sys, glob
 HERE = os.path.dirname(os.path.dirname(os.path.abspath(__file__)))
 seeds = sorted(glob.glob(os.path.join(HERE, 'seeded', '*', 'patch.diff')))
 only = set(sys.argv[1:])
+W = '/tmp/seeds/verify_wt'   # scratch worktree of /repo HEAD (outside /repo and /verif); checks read it through SVT_REPO
 summary = {}
 for p in seeds:
     d = os.path.dirname(p); sid = os.path.basename(d)
     if only and sid not in only:
         continue
-    if subprocess.run(['git', '-C', '/repo', 'status', '--porcelain', '--untracked-files=no'], capture_output=True, text=True).stdout.strip():
-        print('refusing: /repo has uncommitted changes'); sys.exit(3)
-    r = subprocess.run(['git', '-C', '/repo', 'apply', p])
+    subprocess.run(['git', '-C', W, 'checkout', '-q', '--', '.'])
+    subprocess.run(['git', '-C', W, 'checkout', '-q', '--detach', subprocess.check_output(['git', '-C', '/repo', 'rev-parse', 'HEAD'], text=True).strip()])
+    r = subprocess.run(['git', '-C', W, 'apply', p])
     if r.returncode:
         print(sid, 'patch does not apply'); continue
     try:
-        env = dict(os.environ, VERIF_EVID_DIR='/tmp/seeds/evid')
+        env = dict(os.environ, VERIF_EVID_DIR='/tmp/seeds/evid', SVT_REPO=W, SVT_CACHE='/tmp/seeds/cache')
         os.makedirs('/tmp/seeds/evid', exist_ok=True)
         out = subprocess.run([sys.executable, os.path.join(HERE, 'tools', 'runall.py')], capture_output=True, text=True, env=env).stdout
     finally:
-        subprocess.run(['git', '-C', '/repo', 'checkout', '--', '.'])
+        subprocess.run(['git', '-C', W, 'checkout', '-q', '--', '.'])
     caught = re.findall(r'^(C\d\d) exit=1', out, re.M)
     broken = re.findall(r'^(C\d\d) exit=2', out, re.M)
     viol = [l.strip()[:400] for l in out.splitlines() if l.strip().startswith('violation:')]
